@@ -11,7 +11,7 @@ def run(ctx):
     ctx.assumptions += ["S-fs as in C11; lex/scan_file (check side) and _analyze_file (scan side) replaced by the same function of the decoded text, so agreement of the shared pipeline itself is C06's determinism",
                         "reference exclusion semantics as proved in C11"]
     ctx.outside += ["working directory different from the root (excluded by the statement)", "trees outside the pool family"]
-    T = 300 if ctx.quick() else 1500
+    T = 300 if ctx.quick() else 600
     jobs = []
     cfgs = (0, 2, 4, 5) if ctx.quick() else (0, 1, 2, 3, 4, 5)
     for c in cfgs:
